@@ -43,9 +43,9 @@ ASSUMPTIONS = [
 ]
 
 TYPES = ["int8", "uint8", "int16", "uint16", "int32", "uint32", "int64", "uint64"]
-CLAUSES = {1: "D6_unsigned_negative_step", 2: "step_not_representable", 3: "D6_unsigned_negative_k",
-           4: "k_not_representable", 5: "triu_k_add_wraps", 6: "uint64_promotes_to_float",
-           7: "gcxs_rows_exceed_indptr_dtype"}
+# failed domain clauses (numbers of Corr/C15Judge.v failed_clause); 1-5 (D6 family: getitem step / triu-tril k) were
+# repaired in /repo by 0a2ad47 and 972d3f2 and are no longer part of any domain
+CLAUSES = {6: "uint64_promotes_to_float", 7: "gcxs_rows_exceed_indptr_dtype"}
 DT_RE = re.compile(r"dtype|u?int(8|16|32|64)|index type|idx_dtype", re.I)
 
 
@@ -208,7 +208,7 @@ def _impl_op(case):
     if k == "stack":
         x = _coo(case["shape"], case["coords"], t)
         r = sparse.stack([x, x], axis=case["axis"])
-        return {"rows": [], "dt": str(r.coords.dtype)}
+        return {"rows": [[1 if r.coords.dtype.kind in "iu" else 0]], "dt": str(r.coords.dtype)}
     if k == "ctor":
         n = len(case["coords"])
         c = np.array(case["coords"], dtype=np.int64).reshape(n, len(case["shape"])).T.astype(t)
@@ -237,6 +237,11 @@ def _impl_op(case):
         r = uncompress_dimension(p)
         return {"rows": [[int(v) for v in r]], "dt": str(r.dtype)}
     raise ValueError(k)
+
+
+def impl_op_batch(batch):
+    """all op cases of one index dtype in one worker (the Numba kernels are compiled once per dtype)"""
+    return [impl_op(c) for c in batch["items"]]
 
 
 def impl_prim(case):
@@ -334,7 +339,7 @@ def _diff_calls():
         "dot": lambda x: sparse.dot(x, x.T) if x.ndim == 2 else sparse.dot(x, x),
         "sort": lambda x: sparse.sort(x),
         "bcast_to": lambda x: x.broadcast_to((2,) + x.shape),
-        "nonzero": lambda x: np.stack(x.nonzero()),
+        "nonzero": lambda x: np.stack(x.nonzero()).astype(np.int64),
         "to_gcxs": lambda x: gcxs(x),
         "to_gcxs_back": lambda x: gcxs(x).tocoo(),
         "gcxs_sum0": lambda x: gcxs(x).sum(axis=0),
@@ -504,7 +509,7 @@ def gen_op_cases(tier, rng):
                 nn = min(rows * cols, rng.choice([1, 3, 100, 130]))
                 lin = sorted(rng.sample(range(rows * cols), nn))
                 ops.append(([rows, cols], [[l // cols, l % cols] for l in lin]))
-            cases.append(dict(kind="gjoin", t=t, ops=ops, how=rng.choice(["concat", "concat", "stack"])))
+            cases.append(dict(kind="gjoin", t=t, ops=ops, how="concat"))
         for nrows in [3, 127, 128, 129, 255, 256, 257, 300]:
             ptr = [0] * nrows + [1]
             ptr[nrows // 2:] = [1] * (len(ptr) - nrows // 2)
@@ -532,7 +537,8 @@ def gen_prim_cases(tier, rng):
                 small = [0, 1, 5, 100]
                 b = [1, 2, 3, 7]
                 cases.append(dict(kind="arrarr", op=op, t=t, t2=t2, a=small, b=b))
-                if op < 3:
+                mixed64 = {t, t2} & {"uint64"} and (tbits(t)[1] != tbits(t2)[1])      # promotes to float64: inexact beyond 2^53
+                if op < 3 and not mixed64:
                     cases.append(dict(kind="arrarr", op=op, t=t, t2=t2, a=[lo, hi, hi, lo], b=[lo2, hi2, 1, 1][:4]))
             for kt in ("int64", "int32", "uint8"):
                 for kv in (5, -5, 100, 127):
@@ -548,6 +554,14 @@ def gen_prim_cases(tier, rng):
               -32769, -2**31, -2**31 - 1, -2**63]:
         cases.append(dict(kind="minscalar", z=z))
     return cases
+
+
+# calls whose cost is dominated by compiling Numba kernels for the index dtype: in the quick tier they run for the
+# narrowest signed / unsigned types, one 16-bit type and uint64 only (all eight types in the thorough tier)
+JIT_HEAVY = {"sort", "dot", "gcxs_dot", "getitem_fancy", "getitem_last", "getitem_int", "gcxs_getitem", "gcxs_getitem_neg",
+             "gcxs_stack", "gcxs_reshape", "gcxs_concat", "gcxs_concat_dense", "to_gcxs_back", "gcxs_T", "gcxs_sum0",
+             "sum_all", "min_last", "mul_self", "add_bcast", "diagonal", "diagonal_1"}
+QUICK_HEAVY_TYPES = {"int8", "uint8", "uint16", "uint64"}
 
 
 def gen_diff_items(tier, rng):
@@ -586,6 +600,8 @@ def gen_diff_items(tier, rng):
                 if how == "full" and name in ("dot", "gcxs_dot", "kron_self", "concat_last") and shape[-1] > 5000:
                     continue
                 if name in ("dot", "gcxs_dot") and max(shape) > 5000:
+                    continue
+                if tier == "quick" and name in JIT_HEAVY and t not in QUICK_HEAVY_TYPES:
                     continue
                 items.append((name, shape, coords, t, how))
     return items
@@ -636,7 +652,7 @@ def op_literal(case, res):
         rows = [vpair(zl(axis_row(case["coords"], ax)), vZ(case["pw"])) for ax in range(len(case["shape"]))]
         oc = f"(CPad [{'; '.join(rows)}])"
     elif k == "stack":
-        oc = "CStack"
+        oc = f"(CStack {'true' if case['axis'] == 0 else 'false'})"
     elif k == "ctor":
         oc = f"(CCtor {vity(case['ti'])} {vZ(max(case['shape']))} {zl(axis_row(case['coords'], 0))})"
     elif k == "fromcoo":
@@ -712,9 +728,17 @@ def prepare_op_case(case):
 
 # ---------------------------------------------------------------------------------------------- campaign
 def campaign(build, tier, seed, report, budget=1):
+    import time
     rng = random.Random(seed)
     viol = []
     cov = report["coverage"]
+    t0 = time.time()
+    timing = {}
+
+    def lap(name):
+        nonlocal t0
+        timing[name] = round(time.time() - t0, 1)
+        t0 = time.time()
     imports = "From Verif Require Import Py MachInt C15Judge."
 
     # ---- stream prim
@@ -730,7 +754,9 @@ def campaign(build, tier, seed, report, budget=1):
                 continue
         plits.append(prim_literal(c, r))
         pidx.append(i)
+    lap("prim_impl")
     bad = build.judge("c15_prim", imports, "primcase * iout", "judge_prim", plits)
+    lap("prim_coq")
     for j, code in bad:
         c, r = pcases[pidx[j]], pres[pidx[j]]
         viol.append({"property": "C15", "op": "numpy_rule:" + c["kind"], "kind": "representation", "clause": None,
@@ -740,14 +766,33 @@ def campaign(build, tier, seed, report, budget=1):
 
     # ---- stream op
     ocases = [prepare_op_case(c) for c in gen_op_cases(tier, rng)]
-    ores = vlib.run_impl("props.c15", "impl_op", ocases, workers=6, per_case_timeout=60.0)
+    order = sorted(range(len(ocases)), key=lambda i: (TYPES.index(ocases[i]["t"]), i))
+    groups = {}
+    for i in order:
+        groups.setdefault(ocases[i]["t"], []).append(i)
+    obatches = []
+    for t in TYPES:
+        idxs = groups.get(t, [])
+        h = (len(idxs) + 1) // 2
+        for part in (idxs[:h], idxs[h:]):       # two halves per dtype, adjacent in the queue
+            if part:
+                obatches.append(part)
+    bres = vlib.run_impl("props.c15", "impl_op_batch", [{"items": [ocases[i] for i in b]} for b in obatches],
+                         workers=6, per_case_timeout=300.0)
+    ores = [None] * len(ocases)
+    for b, rs in zip(obatches, bres, strict=True):
+        for k, i in enumerate(b):
+            ores[i] = rs[k] if isinstance(rs, list) else dict(rs)
     olits, oidx = [], []
     for i, (c, r) in enumerate(zip(ocases, ores, strict=True)):
         lit = op_literal(c, r)
         if lit is not None:
             olits.append(lit)
             oidx.append(i)
-    bad = build.judge("c15_op", imports, "op_case", "judge_op", olits, chunk=150)
+    lap("op_impl")
+    tagged = build.judge("c15_op", imports, "op_case", "judge_op_tagged", olits, chunk=100)
+    lap("op_coq")
+    bad = [(j, v % 1000) for j, v in tagged if v % 1000]
     for j, code in bad:
         c, r = ocases[oidx[j]], ores[oidx[j]]
         kind = "representation" if code in (1, 9) else "value"
@@ -755,31 +800,32 @@ def campaign(build, tier, seed, report, budget=1):
         viol.append({"property": "C15", "op": c["kind"], "kind": kind, "clause": clause, "code": code,
                      "idx_dtype": c["t"], "case": {k: v for k, v in c.items() if k not in ("lin",)}, "impl": r,
                      "replay_py": replay_op(c)})
-    # branch tags of the op stream (computed in Coq)
+    # branch tags of the op stream (computed in Coq together with the verdicts)
     tag_hist = {}
-    header = ("From Coq Require Import ZArith List Bool.\n" + imports + "\nFrom Verif Require Import Judge.\n"
-              "Import ListNotations.\nOpen Scope Z_scope.\nSet Printing Width 1000000.\nSet Printing Depth 1000000.\n")
-    chunks = []
-    CH = 150
-    for k in range(0, len(olits), CH):
-        chunks.append("Definition cases : list op_case := [\n" + ";\n".join(olits[k:k + CH]) +
-                      "].\nEval vm_compute in (run_tags tag_op cases).")
     names = {1: "concat", 2: "flip", 3: "roll", 4: "roll_tuple", 5: "getitem", 6: "reshape", 7: "reduce", 8: "triu_tril",
              9: "kron", 10: "pad", 11: "stack", 12: "ctor_idx_dtype", 13: "gcxs_from_coo", 14: "gcxs_join", 15: "uncompress"}
     sub = {0: "equal", 1: "guard_ValueError", 2: "outside_domain"}
-    for out in build.eval_cases("c15_tags", header, chunks):
-        ev = vlib.parse_eval_lists(out)
-        for m in re.finditer(r"-?\d+", ev[0]):
-            v = int(m.group())
-            key = f"{names.get(v // 100, v // 100)}/{sub.get(v % 100, v % 100)}"
-            tag_hist[key] = tag_hist.get(key, 0) + 1
+    assert len(tagged) == len(olits), (len(tagged), len(olits))
+    for _j, v in tagged:
+        v //= 1000
+        key = f"{names.get(v // 100, v // 100)}/{sub.get(v % 100, v % 100)}"
+        tag_hist[key] = tag_hist.get(key, 0) + 1
 
     # ---- stream diff (differential only)
     items = gen_diff_items(tier, rng)
-    rng.shuffle(items)
-    nb = 12 if tier == "quick" else 24
-    batches = [{"items": items[i::nb]} for i in range(nb)]
+    batches = []
+    for heavy in (True, False):                      # one dtype per batch: kernels compile once per dtype
+        for t in TYPES:
+            its = [it for it in items if it[3] == t and (it[0] in JIT_HEAVY) == heavy]
+            its.sort(key=lambda it: it[0])
+            nsplit = 1 if tier == "quick" else 3
+            for k in range(nsplit):
+                part = its[k * len(its) // nsplit:(k + 1) * len(its) // nsplit]   # the same calls stay together
+                if part:
+                    batches.append({"items": part})
     dres = vlib.run_impl("props.c15", "impl_diff", batches, workers=6, per_case_timeout=400.0)
+    lap("diff_impl")
+    report["notes"].append(f"timing (s): {timing}")
     d_total = d_same = d_valueerr = d_bothexc = 0
     for b, rs in zip(batches, dres, strict=True):
         if not isinstance(rs, list):
@@ -820,8 +866,9 @@ def campaign(build, tier, seed, report, budget=1):
     pick = [0, len(ocases) // 3, 2 * len(ocases) // 3, len(ocases) - 1]
     cov["samples"] = [dict(case={k: v for k, v in ocases[i].items() if k != "lin"}, impl=_short(ores[i])) for i in pick]
     cov["unproved_statements"] = [
-        "width_irrelevant_from_coo (indptr cumsum bound; the dtype choice and the index digits are proved)",
-        "den-level statement per API operation (this property is stated on the coordinate computations)"]
+        "den-level statement per API operation (C15 is stated and proved on the coordinate computations; the dense "
+        "meaning of the operations is the subject of C01-C10)",
+        "GCXS getitem / reshape / transpose index arithmetic (convert.py kernels): differential only"]
     return viol
 
 
@@ -831,19 +878,14 @@ def _short(p):
 
 
 def diff_clause(name, t, got):
+    """clause tag of a differential violation: only the defect classes still open in /repo"""
     cls = got.get("cls")
-    if t == "uint64" and cls in ("TypeError", "IndexError", "TypingError"):
-        return "uint64_promotes_to_float"
     if name.startswith("gcxs_getitem") or (name.startswith("gcxs") and cls == "AttributeError"):
         return "gcxs_getitem_unsigned_indices"
+    if t == "uint64" and cls in ("TypeError", "IndexError", "TypingError"):
+        return "uint64_promotes_to_float"
     if name.startswith("gcxs_concat") or name.startswith("gcxs_stack"):
         return "gcxs_rows_exceed_indptr_dtype"
-    if name.startswith("getitem") and cls == "OverflowError":
-        return "D6_unsigned_negative_step" if t.startswith("u") and "neg" in name else "step_not_representable"
-    if name.startswith(("triu", "tril")):
-        if cls == "OverflowError":
-            return "D6_unsigned_negative_k" if t.startswith("u") and name.endswith("_m") else "k_not_representable"
-        return "triu_k_add_wraps"
     return None
 
 
